@@ -10,6 +10,7 @@ import (
 	"fmt"
 	"os"
 	"path/filepath"
+	"sort"
 	"strconv"
 	"strings"
 	"time"
@@ -83,6 +84,20 @@ func main() {
 			os.Exit(2)
 		}
 		ids = []string{*property}
+	}
+	if *ruleOnly == "all" {
+		var rs []*lint.Rule
+		var names []string
+		for n := range rules {
+			names = append(names, n)
+		}
+		sort.Strings(names)
+		for _, n := range names {
+			rs = append(rs, rules[n])
+		}
+		rep := lint.RunRules(prog, "*", rs, findings, "")
+		printReport(rep, *verbose)
+		os.Exit(rep.ExitCode)
 	}
 	if *ruleOnly != "" {
 		r, ok := rules[*ruleOnly]
